@@ -294,6 +294,40 @@ def body_links(env, shape=(3,)):
         h = d1.compute_histogram([d2.id['b']], range=[(-100.0, 100.0)], bins=[1]) if not env.symbolic else None
 
 
+def body_coords(env):
+    """a dataset refreshed with new coordinates: world values derived *by another dataset* through pixel links follow"""
+    from glue.core import DataCollection
+    from glue.core.coordinates import AffineCoordinates
+    from glue.core.link_helpers import LinkSame
+    M1 = np.array([[2.0, 0.5, 1.0], [0.25, 3.0, -1.0], [0.0, 0.0, 1.0]])
+    M2 = np.array([[3.0, -0.5, -5.0], [0.5, 1.5, 2.0], [0.0, 0.0, 1.0]])
+    x = env.reals('x', (2, 3))
+    img = mk_data('img', coords=AffineCoordinates(M1), x=x)
+    i = env.reals('i', (3,), lo=-4, hi=4)
+    j = env.reals('j', (3,), lo=-4, hi=4)
+    tab = mk_data('tab', i=i, j=j)
+    dc = DataCollection([img, tab])
+    dc.add_link(LinkSame(tab.id['i'], img.pixel_component_ids[0]))
+    dc.add_link(LinkSame(tab.id['j'], img.pixel_component_ids[1]))
+
+    def world(M, k):          # world axis k in matrix order from (x=j, y=i)
+        return M[k, 0] * j + M[k, 1] * i + M[k, 2]
+    for a in range(2):
+        env.close(tab[img.world_component_ids[a]], world(M1, 1 - a), 1e-9, 'world axis %d derived by the table before the change' % a)
+    how = env.choice('how', 2)
+    if how == 0:
+        other = mk_data('img', coords=AffineCoordinates(M2), x=env.reals('xn', (2, 3)))
+        img.update_values_from_data(other)
+    else:
+        img.coords = AffineCoordinates(M2)
+    t = env.real('t', lo=-20, hi=20)
+    for a in range(2):
+        w = img.world_component_ids[a]
+        env.close(tab[w], world(M2, 1 - a), 1e-9, 'world axis %d derived by the table after new coordinates (how=%d)' % (a, how))
+        env.same(tab.get_mask(w > t), world(M2, 1 - a) > t, 'selection on world axis %d evaluated on the table after new coordinates' % a)
+    env.close(img[img.world_component_ids[0]][1, 2], M2[1, 0] * 2 + M2[1, 1] * 1 + M2[1, 2], 1e-9, 'world value of the image itself')
+
+
 def _known_memo():
     from glue.core import Data
     d = Data(x=[1., 2., 3.])
@@ -324,4 +358,5 @@ def harnesses(tier):
                       bounds=dict(shape=shape, kinds=['ineq', 'invert', 'range', 'or'], memoised_evaluations_before=260)))
     hs.append(Harness('params %s' % (shape,), body_params, params=dict(shape=(3,)), validate=30, bounds=dict(shape=(3,), cases=9)))
     hs.append(Harness('links %s' % (shape,), body_links, params=dict(shape=(3,)), validate=30, bounds=dict(shape=(3,), changes=4)))
+    hs.append(Harness('coordinates replaced', body_coords, validate=30, bounds=dict(image=(2, 3), table_rows=3, changes=['update_values_from_data', 'coords setter'])))
     return hs
